@@ -458,10 +458,20 @@ func wireGFF(c *core.Ctx, fasta []string, regionEnd int64) wireCanned {
 	}
 }
 
+// wireRegions: what a region constructor returns - two coding regions NOT in coordinate order (the GenBank constructor
+// keeps the order of the feature table), the first of them beyond every window the scenarios use; all of them, in this
+// order, are what the workers must be handed.
 func wireRegions(tag string) wireCanned {
 	return func(a []eval.Value, sig *types.Signature) eval.Value {
-		r := &eval.StructVal{F: map[string]eval.Value{"_tag": eval.S("regions(" + tag + ")")}}
-		return eval.Tuple{eval.NewSlice(r), eval.NewSlice(eval.K(1)), eval.Nil{}}
+		mk := func(name string, start, stop int64) *eval.StructVal {
+			var ps []eval.Value
+			for p := start; p <= stop; p++ {
+				ps = append(ps, eval.K(p))
+			}
+			return &eval.StructVal{F: map[string]eval.Value{"_tag": eval.S("regions(" + tag + ")/" + name), "Whichtype": eval.S("protein-coding"),
+				"Name": eval.S(name), "Start": eval.K(start), "Stop": eval.K(stop), "Strand": eval.K(1), "Translation": eval.S("MKF"), "Positions": eval.NewSlice(ps...)}}
+		}
+		return eval.Tuple{eval.NewSlice(mk("far", 30, 38), mk("near", 2, 10)), eval.NewSlice(eval.K(1)), eval.Nil{}}
 	}
 }
 
@@ -500,11 +510,11 @@ func wiringSamVariants(c *core.Ctx, rule string) {
 					if fromFile {
 						ev = append(ev, "fastaio.ReadEncodeAlignmentToList(reader:reference, false)")
 					}
-					regs := "[regions(genbank)]"
+					regs := "[regions(genbank)/far regions(genbank)/near]"
 					if suffix == "gb" {
 						ev = append(ev, "genbank.ReadGenBank(reader:annotation)", "variants.RegionsFromGenbank(genbank(reader:annotation), "+refLen+")")
 					} else {
-						regs = "[regions(gff)]"
+						regs = "[regions(gff)/far regions(gff)/near]"
 						ev = append(ev, "gff.ReadGFF(reader:annotation)", "variants.RegionsFromGFF(gff(reader:annotation), "+fmtS(strings.ReplaceAll(refText, "-", ""))+")")
 					}
 					if agg {
@@ -587,11 +597,11 @@ func wiringVariants(c *core.Ctx, rule string) {
 						ev = append(ev, "variants.findReference(file:msa, \"REFID\")")
 					}
 					ev = append(ev, "fastaio.ReadEncodeAlignment("+in.Tag+", false, chan, chan, chan)")
-					regs := "[regions(genbank)]"
+					regs := "[regions(genbank)/far regions(genbank)/near]"
 					if suffix == "gb" {
 						ev = append(ev, "genbank.ReadGenBank(reader:annotation)", "variants.RegionsFromGenbank(genbank(reader:annotation), 4)")
 					} else {
-						regs = "[regions(gff)]"
+						regs = "[regions(gff)/far regions(gff)/near]"
 						ev = append(ev, "gff.ReadGFF(reader:annotation)", "variants.RegionsFromGFF(gff(reader:annotation), "+fmtS(refText)+")")
 					}
 					firstmissing := stdin && withRef
@@ -649,11 +659,11 @@ func wiringVariants(c *core.Ctx, rule string) {
 					ev = append(ev, "variants.findReference(file:msa, \"REFID\")")
 				}
 				ev = append(ev, "fastaio.ReadEncodeAlignment("+in.Tag+", false, chan, chan, chan)")
-				regs := "[regions(genbank)]"
+				regs := "[regions(genbank)/far regions(genbank)/near]"
 				if suffix == "gb" {
 					ev = append(ev, "genbank.ReadGenBank(reader:annotation)", "variants.RegionsFromGenbank(genbank(reader:annotation), 4)")
 				} else {
-					regs = "[regions(gff)]"
+					regs = "[regions(gff)/far regions(gff)/near]"
 					ev = append(ev, "gff.ReadGFF(reader:annotation)", "variants.RegionsFromGFF(gff(reader:annotation), \"AGCT\")")
 				}
 				if agg {
